@@ -128,7 +128,7 @@ def stage_node(ctx, e):
     w = worldmod.World(e)
     db = w.db
     ops, exps, kinds = [], [], []
-    n = 120 if ctx.quick() else 3000
+    n = 360 if ctx.quick() else 6000
     for it in range(n):
         for m in (db.StorageTransferAction, db.ArchiveFileCopyRequest, db.ArchiveFileImportRequest, db.ArchiveFileCopy,
                   db.ArchiveFile, db.ArchiveAcq, db.StorageNode, db.StorageGroup):
@@ -150,7 +150,77 @@ def stage_node(ctx, e):
                                           last_update=__import__("datetime").datetime(2020, 1, 1) + __import__("datetime").timedelta(days=rng.randint(0, 50), seconds=i))
             stub.states[str(c.path)] = rng.choice(STATES + [None])
             files.append(f); copies.append(c)
-        kind = rng.choice(["rwait", "release", "refresh", "open"])
+        kind = rng.choice(["rwait", "release", "refresh", "open", "readytask", "checktask", "readytask", "checktask"])
+        if kind in ("readytask", "checktask"):
+            # the whole task (generator with deferred re-queues) on the real queue: k waiting answers, then a final one
+            import alpenhorn.io._default_asyncs as dasync
+            c = rng.choice(copies)
+            nwait = rng.randint(0, 3)
+            answers = [(rng.choice(["restoring", "released"]), rng.choice([True, True, None])) for _ in range(nwait)]
+            final = rng.choice([("restored", True), ("unarchived", True), ("missing", True), (None, True), ("released", False),
+                                ("restored", None), (None, None)])
+            answers.append(final)
+            exists_ans = rng.choice(["restored", "released", "restoring", "unarchived", "missing", None]) if kind == "checktask" else "-"
+            io._restoring, io._restore_start = set(), {}
+            seq = ([exists_ans] if kind == "checktask" else []) + [a[0] for a in answers]
+            rrs = [a[1] for a in answers]
+            stub.queue[:] = list(seq)
+            stub.states[str(c.path)] = final[0]
+            stub.calls.clear()
+
+            # restore results are consumed in order, one per hsm_restore call
+            def scripted_restore(path, _rrs=rrs, _ans=answers):
+                stub.calls.append(("restore", str(path)))
+                k = sum(1 for (kk, _) in stub.calls if kk == "state") - (1 if kind == "checktask" else 0) - 1
+                return _rrs[min(max(k, 0), len(_rrs) - 1)]
+            stub.hsm_restore = scripted_restore
+            hashed = []
+            real_check = dasync.check_async
+            dasync.check_async = lambda task, nio, cp: hashed.append(cp.id)
+            w.put_bytes(node, c.file, b"x")
+            before_ready = bool(c.ready)
+            try:
+                if kind == "readytask":
+                    req = db.ArchiveFileCopyRequest.create(file=c.file, node_from=node, group_to=g)
+                    io.ready_pull(req)
+                else:
+                    io.check(c)
+                for _ in range(20):
+                    item = q.get(timeout=0.001)
+                    if item is None:
+                        if q.deferred_size:
+                            q._deferrals = [(0, *d[1:]) for d in q._deferrals]
+                            continue
+                        break
+                    item[0]()
+                    q.task_done(item[1])
+            except Exception as ex:  # noqa
+                ctx.violation("task:raised", f"the HSM {kind} raised {type(ex).__name__}: {ex} (answers {seq})", {"kind": kind, "answers": seq})
+                continue
+            finally:
+                dasync.check_async = real_check
+                del stub.hsm_restore
+            after_ready = bool(db.ArchiveFileCopy.get(id=c.id).ready)
+            enc = ",".join(f"{a[0] or '-'}/{'-' if a[1] is None else int(a[1])}" for a in answers)
+            skip = kind == "checktask" and exists_ans == "missing"
+            ops.append(f"hsmtask {'ready' if kind == 'readytask' else 'check'} - - {c.file_id} {exists_ans or '-'} {enc}")
+            if kind == "readytask":
+                exps.append(f"{int(after_ready)} {','.join(map(str, sorted(io._restoring))) or '-'} {','.join(map(str, sorted(io._restore_start))) or '-'}")
+            else:
+                exps.append(f"{int(bool(hashed))} {','.join(map(str, sorted(io._restoring))) or '-'} {','.join(map(str, sorted(io._restore_start))) or '-'}")
+            kinds.append(kind)
+            resident_end = final[0] in ("restored", "unarchived")
+            # a waiting answer "released" with a refused restore ends the wait early
+            early = next((i for i, a in enumerate(answers[:-1]) if a[0] == "released" and a[1] is False), None)
+            if kind == "readytask" and after_ready and not (resident_end and early is None):
+                ctx.violation("task:offered-nonresident", f"ready_pull left the copy ready=True (offered as a transfer source) although the "
+                              f"last lfs answers were {seq[-2:]} (restore results {rrs[-2:]})", {"kind": kind, "op": ops[-1]})
+            if kind == "checktask" and hashed and (not resident_end or skip):
+                ctx.violation("task:hashed-nonresident", f"the check task hashed the file although lfs answered {seq}", {"kind": kind, "op": ops[-1]})
+            if io._restoring or io._restore_start:
+                ctx.violation("task:leftover", f"restore bookkeeping not empty after the {kind} ended: {sorted(io._restoring)}/{sorted(io._restore_start)} "
+                              f"(answers {seq})", {"kind": kind, "op": ops[-1]})
+            continue
         if kind == "rwait":
             # a sequence of _restore_wait calls on one copy with scripted answers
             c = rng.choice(copies)
